@@ -852,16 +852,18 @@ def build_item(cur, log):
         # `last` anchor, so that reordering the anchored statements does not lose the block
         firsts = [x.strip() for x in fsec["first"].text.split("|||") if x.strip()]
         lasts = [x.strip() for x in fsec["last"].text.split("|||") if x.strip()]
-        for anc in firsts + lasts:
+        for anc in firsts:
             if body.count(anc) > 1:
                 raise ExtractError(f"lost-anchor: block {name} in {pos[1]}: anchor occurs {body.count(anc)}x: {anc[:50]!r}")
         # alternatives that do not occur are ignored (they name older/newer spellings of the same statement)
         firsts = [x for x in firsts if body.count(x) == 1]
-        lasts = [x for x in lasts if body.count(x) == 1]
+        lasts = [x for x in lasts if body.count(x) >= 1]
         if not firsts or not lasts:
             raise ExtractError(f"lost-anchor: block {name} in {pos[1]}: no first/last anchor found")
         a = min(body.index(x) for x in firsts)
-        b = max(body.index(x) + len(x) for x in lasts)
+        # a `last` anchor that occurs several times (e.g. an early `return` added in front of the final one) ends the block at its
+        # LAST occurrence after the start: the added exit is then inside the block and has to meet the contract
+        b = max(body.rindex(x) + len(x) for x in lasts)
         if b <= a: raise ExtractError(f"lost-anchor: block {name}: anchors out of order")
         # extend the end so that every brace opened inside the block is closed (anchors may end inside a nested statement)
         depth = 0
